@@ -15,9 +15,9 @@ import z3
 
 from .core import SymInt, SymBool, Unsupported, tb, eng, conj, disj
 
-A, B, C1, C2, W, PLUS, MINUS, US, O = range(9)
+A, B, C1, C2, W, PLUS, MINUS, US, O, DOT = range(10)
 NAMES = ["ascii-digit", "unicode-decimal", "digit-not-decimal", "numeric-not-digit", "whitespace", "plus", "minus",
-         "underscore", "other"]
+         "underscore", "other", "full-stop"]
 
 
 def classify(ch):
@@ -31,7 +31,7 @@ def classify(ch):
         return C2
     if ch.isspace():
         return W
-    return {"+": PLUS, "-": MINUS, "_": US}.get(ch, O)
+    return {"+": PLUS, "-": MINUS, "_": US, ".": DOT}.get(ch, O)
 
 
 _TABLE = None
@@ -41,7 +41,7 @@ def table():
     """Per class: population count and a representative (B: one per digit value)."""
     global _TABLE
     if _TABLE is None:
-        counts = [0] * 9
+        counts = [0] * 10
         rep = {}
         bdig = {}
         for cp in range(sys.maxunicode + 1):
@@ -54,6 +54,7 @@ def table():
             if k == B:
                 bdig.setdefault(unicodedata.decimal(ch), ch)
         rep[O] = "x"
+        rep[DOT] = "."
         _TABLE = (counts, rep, bdig)
         # sanity: the interpreter agrees with the class semantics on the representatives
         assert rep[C1].isnumeric() and rep[C1].isdigit() and not rep[C1].isdecimal()
@@ -89,7 +90,7 @@ class SymStr:
         table()
         cs = []
         for i in range(n):
-            g = E.int("%s.g%d" % (name, i), 0, 8)
+            g = E.int("%s.g%d" % (name, i), 0, 9)
             d = E.int("%s.d%d" % (name, i), 0, 9)
             cs.append(SymChar(g, d))
         return cls(cs, name)
@@ -160,6 +161,43 @@ class SymStr:
             v = v * 10 + d
         return sign * v
 
+    def __symfloat__(self):
+        """float(s) for the decimal-point notation: [sign] digits [. digits] (at least one digit, underscores only
+        between digits), surrounding whitespace ignored; exact as a rational (lengths here are far below 15 digits).
+        A character of class 'other' could be an exponent marker or part of inf / nan: not modelled."""
+        from .core import Rat
+        body = self.strip().chars
+        sign = 1
+        if body and tb(body[0].grp == PLUS):
+            body = body[1:]
+        elif body and tb(body[0].grp == MINUS):
+            sign, body = -1, body[1:]
+        digits, frac, seen_dot, prev = [], 0, False, "start"
+        for c in body:
+            if tb(disj(c.grp == A, c.grp == B)):
+                digits.append(c.dig)
+                if seen_dot:
+                    frac += 1
+                prev = "digit"
+            elif tb(c.grp == US):
+                if prev != "digit":
+                    raise ValueError("could not convert string to float")
+                prev = "us"
+            elif tb(c.grp == DOT):
+                if seen_dot or prev == "us":
+                    raise ValueError("could not convert string to float")
+                seen_dot, prev = True, "dot"
+            elif tb(c.grp == O):
+                raise Unsupported("float() of a string with a letter-like character (exponent, inf, nan are not modelled)")
+            else:
+                raise ValueError("could not convert string to float")
+        if not digits or prev == "us":
+            raise ValueError("could not convert string to float")
+        v = 0
+        for d in digits:
+            v = v * 10 + d
+        return Rat(sign * v, 10 ** frac)
+
     def canonical_decimal(self):
         """All ASCII digits, no leading zero (or the single digit 0)."""
         if not self.chars:
@@ -180,7 +218,7 @@ class SymStr:
                     if k == B:
                         raise Unsupported("compare with non-ASCII digit")
                     conds.append(conj(c.grp == A, c.dig == int(ch)))
-                elif k in (PLUS, MINUS, US):
+                elif k in (PLUS, MINUS, US, DOT):
                     conds.append(c.grp == k)
                 else:
                     raise Unsupported("compare symbolic string with %r" % o)
